@@ -1,3 +1,5 @@
+mod algebra;
+mod marker;
 mod names;
 mod util;
 
@@ -11,6 +13,7 @@ fn main() {
     let mut out = util::Out::default();
     match suite.as_str() {
         "names" => names::run(&mut out, tier, seed),
+        "algebra" => algebra::run(&mut out, tier, seed, &args[5]),
         "name1" => names::one(&mut out, &util::unhex(&args[5])),
         _ => {
             eprintln!("unknown suite {suite}");
